@@ -21,6 +21,13 @@ PARAMS = [("1/2", "1/10", "1/20", "1/20"), ("1/10", "1/2", "1/20", "1/20"), ("1/
 
 
 def _cases(tier, rng, dist):
+    # likelihood functions that use only PART of the prefix they are given (every second observation, the last three, all but the
+    # first ...), on list and ndarray samples: sprt still shows them x[:1], x[:2], ... and applies Wald's rule to what they return
+    for _ in range(60 if tier == "quick" else 600):
+        n = rng.randint(3, 14)
+        yield {"lr": "bern", "po": "1/2", "pa": rng.choice(["1/10", "9/10", "1/4", "3/4"]), "alpha": rng.choice(["1/20", "1/5"]), "beta": rng.choice(["1/20", "1/5"]),
+               "xs": [rng.randint(0, 1) for _ in range(n)], "ro": rng.random() < 0.85, "dtype": rng.choice(["list", "int64", "int64", "float"]),
+               "slice": rng.choice(["even", "tail3", "drop1", "first"])}
     L = 8 if tier == "quick" else 12
     for n in range(0, L + 1):
         for xs in itertools.product((0, 1), repeat=n):
@@ -54,12 +61,17 @@ def _cases(tier, rng, dist):
         yield {"lr": "bern", "po": ["1/10", "1/100"][k % 2], "pa": "1/2", "alpha": "1/20", "beta": "1/20", "xs": [1] * (400 + 50 * k), "ro": False, "dtype": ["list", "int64"][k % 2]}
 
 
+SLICES = {None: (lambda v: v), "even": (lambda v: v[::2]), "tail3": (lambda v: v[-3:]), "drop1": (lambda v: v[1:]), "first": (lambda v: v[:1])}
+
+
 def _run(c):
     log = []
     if c["lr"] == "bern":
         po, pa = float(Fraction(c["po"])), float(Fraction(c["pa"]))
+        sl = SLICES[c.get("slice")]
         def lr(x):
-            log.append(len(x) if c.get("lenlog") else list(x)); return bernoulli_lh_ratio(x, po, pa)
+            # (a user's likelihood function may look at any part of the prefix it is given: every second observation, the last three ...)
+            log.append(len(x) if c.get("lenlog") else [int(v) for v in x]); return bernoulli_lh_ratio(sl(x), po, pa)
     else:
         tab = [float("inf") if v == "inf" else float(Fraction(v)) for v in c["table"]]
         def lr(x):
@@ -89,7 +101,9 @@ def spec(c):
     A, B = be / (1 - al), (1 - be) / al
     if c["lr"] == "bern":
         po, pa = Fraction(c["po"]), Fraction(c["pa"])
+        sl = SLICES[c.get("slice")]
         def lr(x):
+            x = sl(list(x))
             s = sum(x); f = len(x) - s
             den = po**s * (1 - po)**f
             # the float likelihood under H0 underflows to 0 below 2^-1075: the ratio the library computes is then +inf
@@ -137,8 +151,8 @@ def oracle(c, o):
 
 
 def to_coq(c, o):
-    if not o["ok"] or c.get("lenlog"):
-        return None
+    if not o["ok"] or c.get("lenlog") or c.get("slice"):
+        return None            # (sliced likelihood functions are decided by the exact oracle only)
     if spec(c)[3]:
         SKIPPED[0] += 1
         return None
